@@ -6,6 +6,7 @@ import (
 	"go/token"
 	"go/types"
 	"math"
+	"os"
 	"sort"
 	"strings"
 	"time"
@@ -101,6 +102,8 @@ type X struct {
 	cutSeen   map[string]int
 	Params    map[string]int
 	cutOld    map[string]Value
+	clockMax  *T
+	clockFrozen bool
 	AuxQueries, AuxSat, AuxUnsat, AuxUnk int
 	AuxTime   time.Duration
 }
@@ -346,8 +349,13 @@ func (x *X) Run(fn *ssa.Function) {
 	if x.Cfg.MaxConcVals == 0 {
 		x.Cfg.MaxConcVals = 70
 	}
+	lastProg := time.Now()
 	for {
 		x.St.Paths++
+		if x.Cfg.Trace && time.Since(lastProg) > 10*time.Second {
+			lastProg = time.Now()
+			fmt.Fprintf(os.Stderr, "  .. %s: paths=%d queries=%d solver=%.1fs steps=%d trace-depth=%d\n", fn.Name(), x.St.Paths, x.S.Queries, x.S.Time.Seconds(), x.St.Steps, len(x.trace))
+		}
 		kind := x.runPath(fn)
 		x.St.PathKinds[kind]++
 		if x.St.Paths >= x.Cfg.MaxPaths {
@@ -376,6 +384,8 @@ func (x *X) runPath(fn *ssa.Function) (kind string) {
 	x.fresh = 0
 	x.ghost = map[string]Value{}
 	x.mono = nil
+	x.clockMax = nil
+	x.clockFrozen = false
 	x.cutSeen = map[string]int{}
 	defer func() {
 		if r := recover(); r != nil {
